@@ -76,7 +76,7 @@ pub fn hx_case_json(cfg: &crate::hx::HxCfg, history: &[Op], at: &str, kind: &str
         "kind": kind,
         "detail": detail,
         "config": cfg.describe(),
-        "ops": {"next_id": cfg.next_id, "add_next": cfg.add_next, "clone_swap": cfg.clone_swap, "clone_from_swap": cfg.clone_from_swap, "reload_swap": cfg.reload_swap, "merges": cfg.merges, "merge_fails": cfg.merge_fails},
+        "ops": {"next_id": cfg.next_id, "add_next": cfg.add_next, "clone_swap": cfg.clone_swap, "clone_from_swap": cfg.clone_from_swap, "reload_swap": cfg.reload_swap, "merges": cfg.merges, "merge_fails": cfg.merge_fails, "scripts": cfg.scripts},
         "probes": {
             "drain": probes.drain, "clone": probes.clone, "reload": probes.reload, "cuts": probes.cuts,
             "slice": probes.slice, "slice_add": probes.slice_add, "exports": probes.exports, "texts": probes.texts,
